@@ -565,7 +565,45 @@ func checkC04Guards(w *World, r *Report, p *Proto) {
 				}
 			}
 		}
+		viaHelper := false
 		if guard == nil {
+			// a guard helper called first thing (if err := txn.check(true); err != nil { return }): every return of the helper
+			// implies rootTxn != nil, so every use of rootTxn after the call is guarded
+			var gc *ssa.Call
+			eachInstr(fn, func(in ssa.Instruction) {
+				c, ok := in.(*ssa.Call)
+				if !ok || gc != nil || len(c.Call.Args) == 0 || c.Call.Args[0] != ssa.Value(fn.Params[0]) {
+					return
+				}
+				if g := c.Call.StaticCallee(); g != nil && w.InModule(g) && len(g.Blocks) > 0 && g != fn {
+					if lv, _ := p.guardSummary(g); lv {
+						gc = c
+					}
+				}
+			})
+			if gc != nil {
+				bad := ""
+				eachInstr(fn, func(in ssa.Instruction) {
+					if bad != "" || in == ssa.Instruction(gc) {
+						return
+					}
+					for _, op := range in.Operands(nil) {
+						if *op == nil || !isLoadOfRecvField(fn, *op, p.RootTxn) {
+							continue
+						}
+						if _, isCmp := in.(*ssa.BinOp); isCmp {
+							continue
+						}
+						if !instrDominates(gc, in) {
+							bad = "rootTxn used at " + w.Pos(in.Pos()) + " before the guard helper ran"
+						}
+					}
+				})
+				ru.Check("settled guard of Txn."+name, w.Pos(gc.Pos()), "every use of rootTxn comes after the guard helper (which panics with ErrSettledTxn on a settled transaction)", bad == "", orDefault(bad, "guard helper "+gc.Call.StaticCallee().Name()+" dominates every use"))
+				viaHelper = true
+			}
+		}
+		if guard == nil && !viaHelper {
 			// an unexported helper is covered when every call of it comes after its caller established rootTxn != nil
 			callerGuarded := func(caller *ssa.Function, site ssa.CallInstruction) bool {
 				_, live := p.txnGuardFacts(caller, site.Block())
@@ -579,24 +617,26 @@ func checkC04Guards(w *World, r *Report, p *Proto) {
 			continue
 		}
 		// every dereference of rootTxn must be dominated by the live branch
-		bad := ""
-		eachInstr(fn, func(in ssa.Instruction) {
-			if bad != "" {
-				return
-			}
-			for _, op := range in.Operands(nil) {
-				if *op == nil || !isLoadOfRecvField(fn, *op, p.RootTxn) {
-					continue
+		if !viaHelper {
+			bad := ""
+			eachInstr(fn, func(in ssa.Instruction) {
+				if bad != "" {
+					return
 				}
-				if _, isCmp := in.(*ssa.BinOp); isCmp {
-					continue // comparing with nil is not a use
+				for _, op := range in.Operands(nil) {
+					if *op == nil || !isLoadOfRecvField(fn, *op, p.RootTxn) {
+						continue
+					}
+					if _, isCmp := in.(*ssa.BinOp); isCmp {
+						continue // comparing with nil is not a use
+					}
+					if !(liveBlock.Dominates(in.Block()) && len(liveBlock.Preds) == 1) {
+						bad = "rootTxn used at " + w.Pos(in.Pos()) + " outside the guarded region"
+					}
 				}
-				if !(liveBlock.Dominates(in.Block()) && len(liveBlock.Preds) == 1) {
-					bad = "rootTxn used at " + w.Pos(in.Pos()) + " outside the guarded region"
-				}
-			}
-		})
-		ru.Check("settled guard of Txn."+name, w.Pos(guard.Pos()), "every use of rootTxn is dominated by the rootTxn != nil branch", bad == "", orDefault(bad, "guard dominates every use"))
+			})
+			ru.Check("settled guard of Txn."+name, w.Pos(guard.Pos()), "every use of rootTxn is dominated by the rootTxn != nil branch", bad == "", orDefault(bad, "guard dominates every use"))
+		}
 
 		// write guard
 		eachInstr(fn, func(in ssa.Instruction) {
@@ -653,7 +693,53 @@ func (p *Proto) readOnlyBranchReturnsErr(fn *ssa.Function) (bool, string) {
 		}
 		return false, "the read-only branch at " + p.w.Pos(ret.Pos()) + " does not return ErrReadOnlyTxn"
 	}
-	return false, "no test of txn.write"
+	// the test may sit in a guard helper (if err := txn.check(true); err != nil { return ..., err }): the helper's read-only
+	// branch returns ErrReadOnlyTxn and the caller hands the helper's error back
+	var out *bool
+	why := "no test of txn.write"
+	eachInstr(fn, func(in ssa.Instruction) {
+		c, ok := in.(*ssa.Call)
+		if !ok || out != nil || len(c.Call.Args) == 0 || len(fn.Params) == 0 || c.Call.Args[0] != ssa.Value(fn.Params[0]) {
+			return
+		}
+		g := c.Call.StaticCallee()
+		if g == nil || g == fn || !p.w.InModule(g) || len(g.Blocks) == 0 {
+			return
+		}
+		if _, wk := p.guardSummary(g); wk == -1 {
+			return
+		}
+		okg, whyg := p.readOnlyBranchReturnsErr(g)
+		if !okg {
+			return
+		}
+		// the caller returns the helper's result on the err != nil branch
+		handed := false
+		eachInstr(fn, func(in2 ssa.Instruction) {
+			if rt, ok := in2.(*ssa.Return); ok {
+				for _, res := range rt.Results {
+					if res == ssa.Value(c) {
+						for _, f := range factsAtBlock(rt.Block()) {
+							if bo, ok := f.Cond.(*ssa.BinOp); ok && (bo.X == ssa.Value(c) || bo.Y == ssa.Value(c)) && ((bo.Op == token.NEQ && f.Val) || (bo.Op == token.EQL && !f.Val)) {
+								handed = true
+							}
+						}
+					}
+				}
+			}
+		})
+		v := handed
+		out = &v
+		if handed {
+			why = "guard helper " + g.Name() + ": " + whyg + "; its error is returned to the caller"
+		} else {
+			why = "the error of guard helper " + g.Name() + " is not returned"
+		}
+	})
+	if out != nil {
+		return *out, why
+	}
+	return false, why
 }
 
 // ---- C04.6 ------------------------------------------------------------------------------------------------
